@@ -652,6 +652,28 @@ for i in range(nL):
             chk.count(huber_tau="just above max|sample|, non-zero mean")
     exec_lruns(spec, runs, "L-" + kind)
 
+# complex timetrace weights (a per-channel gain-and-phase calibration) on REAL samples: the image is linear in the weights,
+# I(w_re + i w_im) = I(w_re) + i I(w_im), for every kernel of the mean family
+for i_ in range(6 if Q else 60):
+    spec_ = gen_random(rng, False, int(rng.integers(2, 5)), int(rng.integers(4, 30)), int(rng.integers(1, 8)), MODES[int(rng.integers(0, len(MODES)))])
+    N_ = len(spec_["tx"])
+    w_re, w_im = rng.uniform(0.5, 2.0, N_), rng.uniform(-1.0, 1.0, N_)
+    use_amp_ = bool(rng.integers(0, 2))
+    interp_ = [("nearest", 0), ("linear", 0), ("lanczos", 3)][int(rng.integers(0, 2 if use_amp_ else 3))]
+    kw_ = dict(fillvalue=0.0, interpolation=interp_arg(*interp_))
+    imgs_ = []
+    for w_ in (w_re + 1j * w_im, w_re, w_im):
+        frame_, fl_ = build(dict(spec_, w=w_), use_amp_, True)
+        imgs_.append(np.asarray(das.delay_and_sum(frame_, fl_, **kw_)))
+    evaluations += 3
+    chk.count(complex_weights=interp_[0] + ("+amplitudes" if use_amp_ else ""))
+    want_ = imgs_[1] + 1j * imgs_[2]
+    sc_ = float(np.max(np.abs(want_))) or 1.0
+    if imgs_[0].shape != want_.shape or not np.allclose(imgs_[0], want_, rtol=0, atol=1e-12 * sc_):
+        chk.violation("das:complex-weights", "delay_and_sum with complex timetrace weights on real samples is not I(Re w) + i I(Im w)",
+                      dict(interpolation=interp_[0], amplitudes=use_amp_, weights_re=w_re, weights_im=w_im, image=imgs_[0], expected=want_,
+                           tx=spec_["tx"], rx=spec_["rx"], predicate="linearity in the timetrace weights"), failing_input_found=True)
+
 llines, lindex = [], []
 for fi, (spec, runs) in enumerate(lframes):
     for ri, run in enumerate(runs):
